@@ -279,10 +279,11 @@ func (h *FBDNSDB) ServeDNSWithRCODE(ctx context.Context, w dns.ResponseWriter, r
 	// Not authoritative but we have NS (implicit or we would not have passed the
 	// previous check) and requested type is DS, this is handled at the parent
 	// zone. We should return a negative answer (unless we support DNSSEC).
-	// Pop a label and find the authority below.
+	// Pop a label and find the authority below. The root has no parent: a DS
+	// query for a delegated root is answered from the delegation itself.
 	// https://tools.ietf.org/html/rfc3658#section-2.2.1.1
 	// https://lists.isc.org/pipermail/bind-users/2018-September/100668.html
-	if !auth && state.QType() == dns.TypeDS {
+	if !auth && state.QType() == dns.TypeDS && packedQName[0] != 0 {
 		_, auth, zoneCut, err = reader.IsAuthoritative(packedQName[packedQName[0]+1:], loc)
 		if err != nil {
 			h.stats.IncrementCounter("DNS_error.is_authoritative")
